@@ -3,7 +3,7 @@
    In the value model a patch is an immutable list of operations, so "applying never changes
    the patch" and "results are independent" hold by construction; those clauses are checked on
    the implementation by the harness (object identity, snapshots) and are not theorems here. *)
-From JP Require Import Base Json PyStr Pointer Patch Rfc6901 Rfc6902 Edit PointerDomain PatchCorr PatchProofs.
+From JP Require Import Base Json PyStr Pointer Patch Rfc6901 Rfc6902 Edit PointerDomain PatchCorr PatchProofs PatchHeap PatchHeapProofs PatchHeapRefine.
 
 (* normal_part, std_pointer, refines: see spec/PatchCorr.v *)
 
@@ -70,6 +70,66 @@ Theorem C15_addap_wide :
     add_domain p d -> refines (Patch.apply [OpAddAp p v] d) (doc_addap (tokens p) v d).
 Proof. exact PatchProofs.addap_refines_wide. Qed.
 Print Assumptions C15_addap_wide.
+
+(* ---- the aliasing clauses, on the heap model (model/PatchHeap.v) ------------------------------- *)
+(* applying never changes the patch: the cells the patch owns are not written, every stored
+   operation reads the same afterwards - also when a later operation of the same patch edits inside
+   a container an earlier one added (what was added is a copy) *)
+Theorem C15_patch_unchanged :
+  forall fuel h ops root h' root',
+    closed h -> valloc h root -> patch_separate h ops root ->
+    happly fuel h ops root = Ok (h', root') ->
+    (forall n o, In o ops -> hop_read n h' o = hop_read n h o) /\
+    (forall a, owned h' ops a <-> owned h ops a).
+Proof. exact PatchHeapProofs.patch_unchanged. Qed.
+Print Assumptions C15_patch_unchanged.
+
+(* constructing a patch copies what it is given: it owns only fresh cells, separate from every
+   document that already exists and from the caller's values *)
+Theorem C15_build_separate :
+  forall fuel h ops h' ops' root,
+    closed h -> valloc h root -> hbuild fuel h ops = Ok (h', ops') ->
+    closed h' /\ valloc h' root /\ patch_separate h' ops' root /\
+    (forall a, owned h' ops' a -> h_next h <= a).
+Proof. exact PatchHeapProofs.build_separate. Qed.
+Print Assumptions C15_build_separate.
+
+(* results are independent of the patch and of each other *)
+Theorem C15_result_independent_of_patch :
+  forall fuel h ops root h' root',
+    closed h -> valloc h root -> patch_separate h ops root ->
+    happly fuel h ops root = Ok (h', root') ->
+    forall a, reach h' root' a -> ~ owned h' ops a.
+Proof. exact PatchHeapProofs.result_independent_of_patch. Qed.
+Print Assumptions C15_result_independent_of_patch.
+
+Theorem C15_results_independent :
+  forall fuel h ops1 ops2 root1 root2 h1 r1 h2 r2,
+    closed h -> valloc h root1 -> valloc h root2 ->
+    (forall a, reach h root1 a -> ~ reach h root2 a) ->
+    happly fuel h ops1 root1 = Ok (h1, r1) ->
+    happly fuel h1 ops2 root2 = Ok (h2, r2) ->
+    forall a, reach h2 r1 a -> ~ reach h2 r2 a.
+Proof. exact PatchHeapProofs.results_independent. Qed.
+Print Assumptions C15_results_independent.
+
+(* apply works in place: unless an operation replaces the root, the returned object is the argument *)
+Theorem C15_in_place :
+  forall fuel ops h root h' root',
+    forallb keeps_root ops = true -> happly fuel h ops root = Ok (h', root') -> root' = root.
+Proof. exact PatchHeapProofs.in_place_root. Qed.
+Print Assumptions C15_in_place.
+
+(* the heap run computes what the value model computes (so every theorem about Patch.apply carries over) *)
+Theorem C15_heap_refines_values :
+  forall fuel ops ops' h root d F,
+    closed h -> valloc h root -> rep h root d F -> Forall2 (denotes h root) ops ops' ->
+    match happly fuel h ops root with
+    | Ok (h', root') => exists d' F', Patch.apply ops' d = Ok d' /\ rep h' root' d' F'
+    | Err e => e = EOutOfFuel \/ Patch.apply ops' d = Err e
+    end.
+Proof. exact PatchHeapRefine.refinement. Qed.
+Print Assumptions C15_heap_refines_values.
 
 Example C15_example :
   let ods := [mkOpDoc NAddAp [47%N; 97%N; 47%N; 57%N] [] JNull; mkOpDoc NAddNe [47%N; 97%N] [] JNull] in
